@@ -21,10 +21,10 @@ func init() { register(c10{}) }
 
 func (c10) ID() string { return "C10" }
 func (c10) Rule() string {
-	return "insert;delete and embed;delete: every location of gen.Universe(L<=5|6,arity<=3) as the single labelled host feature x every index x guest length {1,3}, plus seeded hosts (L<=60, <=8 features, BasicSequence and seqio.GenBank, guests with features): Delete(Insert|Embed(h,i,g),i,len g) must restore the residues and give every host feature the same base atoms and open-end markers as originally, and (for features whose parts are sorted, disjoint and non-abutting) the same number of contiguous range parts (the split re-merged; ambiguous spans split into an order are don't-care structurally). cut;concat: all cut sets of 0..4 distinct cut points in [0,L] (0 and L give an empty end piece) (exhaustive for L<=6|7 with Universe(L,2), seeded for L<=60): Concat of the Slice pieces restores the residues and, per labelled feature, the union of the fragments' residues (with strand) equals the original's. non-trivial: the edit touches a feature; distinct: canonical case text. Hosts may list the same annotation twice (both copies come back; every fragment of a cut comes twice); guests may be CONTIG-only records."
+	return "insert;delete and embed;delete: every location of gen.Universe(L<=5|6,arity<=3) as the single labelled host feature x every index x guest length {1,3}, plus seeded hosts (L<=60, <=8 features, BasicSequence and seqio.GenBank, guests with features): Delete(Insert|Embed(h,i,g),i,len g) must restore the residues and give every host feature the same base atoms and open-end markers as originally, and (for features whose parts are sorted, disjoint and non-abutting) the same number of contiguous range parts (the split re-merged; ambiguous spans split into an order are don't-care structurally). cut;concat: all cut sets of 0..4 distinct cut points in [0,L] (0 and L give an empty end piece) (exhaustive for L<=6|7 with Universe(L,2), seeded for L<=60): Concat of the Slice pieces restores the residues and, per labelled feature, the union of the fragments' residues (with strand) equals the original's. non-trivial: the edit touches a feature; distinct: canonical case text. Hosts may list the same annotation twice (both copies come back; every fragment of a cut comes twice); guests may be CONTIG-only records. cut;concat also on hosts whose feature table is listed in reverse (not in location order)."
 }
 func (c10) RequiredBuckets(tier string) []string {
-	out := []string{"undo:Insert", "undo:Embed", "undo:split-remerged", "undo:ambiguous-dontcare", "cut:0", "cut:1", "cut:2", "cut:3", "cut:4", "cut:feature-fragmented", "host:genbank", "host:basic", "undo:guest:contig-only-record", "undo:host-feature-listed-twice", "cut:host-feature-listed-twice"}
+	out := []string{"undo:Insert", "undo:Embed", "undo:split-remerged", "undo:ambiguous-dontcare", "cut:0", "cut:1", "cut:2", "cut:3", "cut:4", "cut:feature-fragmented", "host:genbank", "host:basic", "undo:guest:contig-only-record", "undo:host-feature-listed-twice", "cut:host-feature-listed-twice", "cut:table-not-in-location-order"}
 	for _, k := range []string{"point", "site", "range", "prange", "ambiguous", "join", "order", "c-range", "c-join"} {
 		out = append(out, "kind|"+k)
 	}
@@ -180,9 +180,14 @@ func (m c10) undo(c *fw.Ctx, kind string, tab []gts.Feature, hostB []byte, gtab 
 	}
 }
 
-func (m c10) cut(c *fw.Ctx, kind string, tab []gts.Feature, hostB []byte, cuts []int) {
+func (m c10) cut(c *fw.Ctx, kind string, tab []gts.Feature, hostB []byte, cuts []int, listed ...bool) {
 	L := len(hostB)
+	asListed := len(listed) > 0 && listed[0]
 	enc := fmt.Sprintf("Slice*;Concat host=%s:%q cuts=%v F=[", kind, hostB, cuts)
+	if asListed {
+		enc = fmt.Sprintf("Slice*;Concat host=%s (table as listed, not in location order):%q cuts=%v F=[", kind, hostB, cuts)
+		c.Bucket("cut:table-not-in-location-order")
+	}
 	for _, f := range tab {
 		enc += fmt.Sprintf("%s %s;", gen.Label(f), model.SafeString(f.Loc))
 	}
@@ -191,7 +196,7 @@ func (m c10) cut(c *fw.Ctx, kind string, tab []gts.Feature, hostB []byte, cuts [
 	c.Count(enc, len(cuts) > 0 && len(tab) > 0)
 	c.Bucket(fmt.Sprintf("cut:%d", len(cuts)))
 	c.Bucket("host:" + kind)
-	host := mkHost(kind, tab, hostB)
+	host := mkHost(kind, tab, hostB, asListed)
 	bounds := append(append([]int{0}, cuts...), L)
 	var res, res2 gts.Sequence
 	p, val, site, stack := fw.Guard(func() {
@@ -432,5 +437,12 @@ func (m c10) Run(c *fw.Ctx) {
 			m.undo(c, kind, tab, hostB, nil, nil, i, embed, span)
 		}
 		m.cut(c, kind, tab, hostB, cuts)
+		if span%3 == 0 && len(tab) > 1 {
+			rev := gen.CloneTable(tab)
+			for i, j := 0, len(rev)-1; i < j; i, j = i+1, j-1 {
+				rev[i], rev[j] = rev[j], rev[i]
+			}
+			m.cut(c, kind, rev, hostB, cuts, true)
+		}
 	}
 }
